@@ -328,8 +328,42 @@ def call(ctx, case, w, S, i, expect, argdesc, obj=None):
 def mutate(ctx, w, S, rng, i, who):
     o = w.env[i]
     stream = w.stream
-    kind = rng.choice(["move", "moveto", "rotate", "setpos", "view"])
-    if kind == "move":
+    kind = rng.choice(["move", "moveto", "rotate", "setpos", "view", "collinear"])
+    if kind == "collinear":
+        # a conformation in which one anchor (>= 2 bonds) is EXACTLY collinear with its two lowest-numbered
+        # bonded atoms (dyadic coordinates along an integer direction: the cross product is exactly zero), the
+        # other atoms anywhere.  The frame of such an anchor takes calcule_base's fallback branch; a map that
+        # treats it specially at call time (skips it, keeps the previous molecule's frame: seed C04-1) becomes
+        # history dependent exactly here.
+        n = len(o)
+        try:
+            nbs = [sorted(int(b) for b in at.bonds) for at in o.molecule_top]
+        except Exception:   # noqa: BLE001
+            nbs = []
+        anchors = [a for a in range(len(nbs)) if len(nbs[a]) >= 2]
+        if not anchors:
+            kind = "setpos"
+        else:
+            a = rng.choice(anchors)
+            n1, n2 = nbs[a][:2]
+            P = [hg.vec(rng, stream) for _ in range(n)]
+            base = [float(rng.randint(-3, 3)) for _ in range(3)]
+            d = [float(rng.randint(-2, 2)) for _ in range(3)]
+            if not any(d):
+                d = [0.0, 0.0, 1.0]
+            k1 = rng.choice([-2, -1, 1, 2]) * 0.25
+            k2 = rng.choice([-3, 3, 5]) * 0.25
+            P[a] = base
+            P[n1] = [base[c] + k1 * d[c] for c in range(3)]
+            P[n2] = [base[c] + k2 * d[c] for c in range(3)]
+
+            def fn():
+                o.atoms_positions = w.ro(np.array(P, dtype=float).reshape(n, 3))
+            st, _ = w.run(f"setpos {i} {n} " + " ".join(tok_v3(p) for p in P),
+                          f"{who}.atoms_positions= (anchor {a} collinear with {n1},{n2})", fn)
+    if kind == "collinear":
+        pass
+    elif kind == "move":
         d = hg.vec(rng, stream)
         st, _ = w.run(f"move {i} {tok_v3(d)}", f"{who}.move", lambda: o.move(w.ro(d)))
     elif kind == "moveto":
